@@ -308,35 +308,59 @@ func httpEncodePathValues(input protoreflect.Message, target *routeTarget) (
 
 func httpExtractTrailers(headers http.Header, knownTrailerKeys headerKeys) http.Header {
 	var trailers http.Header
+	// A trailer may be present in both forms, announced ("X") and with
+	// net/http's prefix ("Trailer:X"). Take the announced ones first and add
+	// the prefixed ones to them, so that the result does not depend on the
+	// order in which Go happens to range over the map.
+	for key := range knownTrailerKeys {
+		vals, present := headers[key]
+		if !present {
+			continue
+		}
+		if trailers == nil {
+			trailers = make(http.Header, len(knownTrailerKeys))
+		}
+		trailers[key] = vals
+		delete(headers, key)
+	}
 	for key, vals := range headers {
-		if strings.HasPrefix(key, http.TrailerPrefix) {
-			if trailers == nil {
-				trailers = make(http.Header, len(knownTrailerKeys))
-			}
-			trailers[strings.TrimPrefix(key, http.TrailerPrefix)] = vals
-			delete(headers, key)
+		name, prefixed := strings.CutPrefix(key, http.TrailerPrefix)
+		if !prefixed {
 			continue
 		}
-		if _, expected := knownTrailerKeys[key]; expected {
-			if trailers == nil {
-				trailers = make(http.Header, len(knownTrailerKeys))
-			}
-			trailers[key] = vals
-			delete(headers, key)
-			continue
+		if trailers == nil {
+			trailers = make(http.Header, len(knownTrailerKeys))
 		}
+		trailers[name] = append(trailers[name], vals...)
+		delete(headers, key)
 	}
 	return trailers
 }
 
 func httpMergeTrailers(header http.Header, trailer http.Header) {
-	for key, vals := range trailer {
+	// Replace, don't add: the handler may already have set the same
+	// trailer (its own status, say) directly on the header map.
+	for key := range trailer {
 		if !strings.HasPrefix(key, http.TrailerPrefix) {
 			key = http.TrailerPrefix + key
 		}
-		// Replace, don't add: the handler may already have set the same
-		// trailer (its own status, say) directly on the header map.
 		header.Del(key)
+	}
+	// A trailer may be present both as "X" and as "Trailer:X". Add the plain
+	// ones first and the prefixed ones to them, so that the result does not
+	// depend on the order in which Go happens to range over the map.
+	for key, vals := range trailer {
+		if strings.HasPrefix(key, http.TrailerPrefix) {
+			continue
+		}
+		for _, val := range vals {
+			header.Add(http.TrailerPrefix+key, val)
+		}
+	}
+	for key, vals := range trailer {
+		if !strings.HasPrefix(key, http.TrailerPrefix) {
+			continue
+		}
 		for _, val := range vals {
 			header.Add(key, val)
 		}
